@@ -245,7 +245,10 @@ def _exec_script(pats, actions, seq):
         hd.add_header_callback(cb, pat[0], pat[2], pat[1], pat[3])
 
     def make_cb(name, action):
-        def cb(pk):
+        me = {}
+
+        def body(pk):
+            cb = me['cb']
             log.append((pk.data[0], name))
             if action == 'nop':
                 return
@@ -279,7 +282,28 @@ def _exec_script(pats, actions, seq):
                     register(name, PATS[alt], cb)
                 return
             raise HarnessError(action)
-        return cb
+        # the library must not care what kind of callable was registered: plain function, functools.partial (no
+        # __name__), callable instance, bound method - one kind per registration slot
+        kind = (int(name[1:]) % 4) if name[1:].isdigit() else 0
+        if kind == 0:
+            me['cb'] = body
+        elif kind == 1:
+            import functools
+            me['cb'] = functools.partial(body)
+        elif kind == 2:
+            class _Callable:
+                __slots__ = ()
+
+                def __call__(self, pk):
+                    return body(pk)
+            me['cb'] = _Callable()
+        else:
+            class _Holder:
+                def handle(self, pk):
+                    return body(pk)
+            me['holder'] = _Holder()
+            me['cb'] = me['holder'].handle
+        return me['cb']
 
     cbs = {}
     regs_first_pat = {}
@@ -290,7 +314,12 @@ def _exec_script(pats, actions, seq):
         regs_first_pat[name] = pk_
         register(name, PATS[pk_], cbs[name])
     err = _run_dispatcher(hd)
-    final = [(c.port, c.port_mask, c.channel, c.channel_mask) for c in hd.cb]
+    # the registration table itself is private state: looked at when it can be identified (a list of records with the
+    # four match fields), otherwise the final-table clause is not judged (deliveries are, always)
+    from vf import cfh
+    tn = cfh.find_attr(hd, ('cb',), lambda v: isinstance(v, list) and all(
+        hasattr(c, 'port_mask') and hasattr(c, 'channel_mask') for c in v))
+    final = [(c.port, c.port_mask, c.channel, c.channel_mask) for c in getattr(hd, tn)] if tn else None
     return log, err, final
 
 
@@ -401,7 +430,7 @@ def _check_script(p, pats, actions, seq):
             pats, actions, seq, log[pos:]), rp)
         return log
     exp_final = sorted(PATS[e['pat']] for e in table)
-    if sorted(final) != exp_final:
+    if final is not None and sorted(final) != exp_final:
         p.violation('mutate:final_table:' + cls, 'pats=%r actions=%r seq=%r: final table %r, model %r' % (
             pats, actions, seq, sorted(final), exp_final), rp)
     return log
